@@ -62,7 +62,7 @@ func (c StepCase) String() string {
 	return fmt.Sprintf("%s parked at pass %d of %s", c.Victim, c.Skip+1, c.Site)
 }
 
-var StepVictims = []string{"join", "leave", "switch", "delete", "lastleave", "create", "compadd-vs-delete", "compadd-vs-leave", "action-vs-delete", "action-vs-leave", "action-vs-action", "compupd-vs-unsub", "compadd-vs-compadd", "customto-vs-customto"}
+var StepVictims = []string{"join", "leave", "switch", "delete", "lastleave", "create", "compadd-vs-delete", "compadd-vs-leave", "action-vs-delete", "action-vs-leave", "action-vs-action", "compupd-vs-unsub", "compadd-vs-compadd", "customto-vs-customto", "sub-vs-sub"}
 
 // stepSiteOK: points on the victim's own path; points that every connection
 // or the frame worker pass all the time would park somebody else.
@@ -90,6 +90,7 @@ type stepEnv struct {
 	oldSID       string // switch: the session the victim leaves (and thereby ends)
 	oldUUID      string
 	t, t2        uint32
+	t3           uint32 // a type nobody is subscribed to (sub-vs-sub)
 	e0, eDel     uint32
 	vNP, vP      uint32 // victim's non-persistent and persistent entity
 	base         float64
@@ -195,6 +196,19 @@ func stepSetup(p *sut.Proc, victim string) *stepEnv {
 	case "action-vs-action", "compadd-vs-compadd":
 		_, _, err = v.Join(en.sid)
 		must(err)
+	case "sub-vs-sub":
+		// a type with a component but without any subscriber yet; the victim and
+		// another member become its first subscribers at the same time
+		_, _, err = v.Join(en.sid)
+		must(err)
+		o := scen.MustDial(p, "vod")
+		en.o = o
+		_, _, err = o.Join(en.sid)
+		must(err)
+		en.t3, err = m.AddType("step-type-3")
+		must(err)
+		_, err = m.AddComp(en.t3, en.e0, "s0")
+		must(err)
 	case "customto-vs-customto":
 		_, _, err = v.Join(en.sid)
 		must(err)
@@ -219,6 +233,8 @@ func stepSetup(p *sut.Proc, victim string) *stepEnv {
 		must(err)
 		en.oldSID, en.oldUUID = v.SID, v.UUID
 		_, err = v.AddEntity(true, 3)
+		must(err)
+		en.vNP, err = v.AddEntity(false, 4)
 		must(err)
 	case "leave", "delete":
 		_, _, err = v.Join(en.sid)
@@ -294,6 +310,8 @@ func (en *stepEnv) fire(victim string) {
 		v.Close()
 	case "compadd-vs-delete", "compadd-vs-leave":
 		must(v.Send(&hagallpb.EntityComponentAddRequest{Type: d.TCompAddReq, Timestamp: d.NewTag(), RequestId: v.NextReqID(), EntityComponentTypeId: en.t2, EntityId: en.eO, Data: []byte("late")}))
+	case "sub-vs-sub":
+		must(v.Send(&hagallpb.EntityComponentTypeSubscribeRequest{Type: d.TSubReq, Timestamp: d.NewTag(), RequestId: v.NextReqID(), EntityComponentTypeId: en.t3}))
 	case "customto-vs-customto":
 		must(v.Send(&hagallpb.CustomMessage{Type: d.TCustom, Timestamp: d.NewTag(), ParticipantIds: []uint32{en.w.PID, en.m.PID}, Body: []byte("victim-to-witness")}))
 	case "compadd-vs-compadd":
@@ -357,6 +375,15 @@ func (en *stepEnv) interfere(victim string) (err error) {
 		return
 	}
 	m := en.m
+	if victim == "sub-vs-sub" {
+		var a *d.Event
+		if a, err = en.o.Subscribe(en.t3); err != nil {
+			return
+		}
+		if a == nil || a.Type != d.TSubResp {
+			return fmt.Errorf("the other member's subscribe was not answered with success: %v", a)
+		}
+	}
 	if victim == "customto-vs-customto" {
 		// another addressed message in the same session, to somebody else, three times
 		for k := 0; k < 3; k++ {
@@ -736,6 +763,43 @@ func StepRun(p *sut.Proc, c StepCase) (res *StepResult) {
 			return
 		}
 	}
+	if c.Victim == "sub-vs-sub" && !c.Abort {
+		// both subscribes were answered with success: a later update of the type reaches both
+		okV := false
+		for _, e := range v.LogCopy() {
+			if e.Type == d.TSubResp {
+				okV = true
+			}
+		}
+		if !okV {
+			res.Findings = append(res.Findings, sf([]string{"C13", "C04"}, "subscription/not-answered", c, "the victim's subscribe was not answered with success; its stream: %v", v.LogCopy()))
+			return
+		}
+		must(m.UpdateComp(en.t3, en.e0, "s1"))
+		barrierAll()
+		if ok, reason, err := p.WaitTicks(en.sid, 3, 10*time.Second); err != nil || !ok {
+			res.Inconclusive = fmt.Sprintf("%s: frame barrier failed: %s %v", c, reason, err)
+			return
+		}
+		barrierAll()
+		for _, sub := range []struct {
+			who string
+			c   *scen.C
+		}{{"the victim", v}, {"the member that subscribed at the same time", en.o}} {
+			n := 0
+			for _, e := range sub.c.LogCopy() {
+				if u, ok := e.M.(*hagallpb.EntityComponentUpdateBroadcast); ok && u.EntityComponent.GetEntityComponentTypeId() == en.t3 && string(u.EntityComponent.GetData()) == "s1" {
+					n++
+				}
+			}
+			if n != 1 {
+				res.Findings = append(res.Findings, sf([]string{"C13"}, "subscription/lost", c, "two members subscribed to a type at the same time, as its first subscribers, and both were answered with success; %s received %d notifications of a later update of that type (want 1)", sub.who, n))
+			}
+		}
+		if len(res.Findings) > 0 {
+			return
+		}
+	}
 	// --- C11: every member of the session still has its pose updates relayed
 	// (its frame handler is registered): each adds an entity and moves it once
 	if !gone[m] && !gone[w] {
@@ -856,6 +920,18 @@ func StepRun(p *sut.Proc, c StepCase) (res *StepResult) {
 		if old.Found && old.Join.SessionUuid == en.oldUUID {
 			res.Findings = append(res.Findings, sf([]string{"C07", "C06"}, "registry/ended-session-still-findable", c, "the session %s that the victim left as its last member (the overlapping join by id was refused) can still be joined", en.oldSID))
 			return
+		}
+	}
+	if (c.Victim == "switch" || c.Victim == "lastleave") && en.n2ok && !gone[en.n2] {
+		// the connection that joined the victim's old session while the victim was
+		// leaving it: what it was handed plus what it was relayed is what a probe is handed
+		if snap := probes[en.oldSID]; snap != nil && snap.Found {
+			old := stateFromProbe(snap)
+			nv := foldLog(en.n2)
+			if diff := nv.Diff(old, "vod"); len(diff) > 0 {
+				res.Findings = append(res.Findings, sf([]string{"C06", "C01"}, "view/diverged-after-step", c, "the view of the connection that joined the session the victim was leaving as its last member differs from the state handed to a probe: %s\n   its stream: %v", strings.Join(diff, "; "), en.n2.LogCopy()))
+				return
+			}
 		}
 	}
 	live := len(uuidOf)
